@@ -126,6 +126,23 @@ def mon_requests(tr, sc):
                             % (old, waiting[old[0]], nconn - 1)))
                 for t in old:
                     waiting.pop(t)
+    # a quit signal ends the wait of its request at once - wherever it waits: for the connect in progress, for the write lock, for the
+    # response. (Only inside conn.Write the signal is not looked at: scripts that park a writer there are left out.)
+    gates = any(o.startswith(("wpol", "sgate", "cpol", "exhold")) or (o.startswith("dial ok") and len(o.split()) > 3 and "g" in o.split()[3]) for o in sc)
+    if not gates:
+        open_calls = set()
+        for i, (op, lines) in enumerate(tr):
+            f = op.split()
+            if f and f[0] in ("adopt", "init"):
+                open_calls = set()
+            if f and f[0] == "call" and any(l == "blocked " + f[1] for l in lines):
+                open_calls.add(f[1])
+            for l in lines:
+                if l.startswith("ret "):
+                    open_calls.discard(l.split()[1])
+            if f and f[0] == "quit" and f[1] in open_calls and not any(l.startswith(("unsupported", "stalled", "hang", "dead after", "noclient")) for l in lines):
+                out.append(("quit-ignored", "request %s still waits after its quit signal was given" % f[1]))
+                open_calls.discard(f[1])
     # the epilogue closed the client: nothing may be left waiting
     dead = any(l.startswith(("dead after", "stalled ", "hang ", "readall parked")) for _, ls in tr for l in ls)
     if (sc and sc[-1] == "#epilogue" or any(o == "close" for o in sc[-4:])) and not dead:
